@@ -820,8 +820,12 @@ Definition server_version (sk : conn) (h : hello) : res N :=
                    g11_alert_protocol_version
   end.
 
-Lemma negotiate_conn_inv ck sk seeded o :
-  negotiate_conn ck sk seeded = Ok o ->
+Lemma lift_client13_ok lost {A} (r : res A) (k : A -> result) o :
+  lift_client13 lost r k = Ok o -> lift Client r k = Ok o.
+Proof. destruct r; cbn; [tauto | destruct lost; discriminate | tauto]. Qed.
+
+Lemma negotiate_conn_sw_inv keep ck sk seeded o :
+  negotiate_conn_sw keep ck sk seeded = Ok o ->
   exists h v ss,
     ((h = client_hello13 ck /\ stack_of ck <> Only12) \/ (exists b, h = client_hello12 ck b) /\ stack_of ck = Only12) /\
     server_version sk h = ROk v /\
@@ -829,7 +833,7 @@ Lemma negotiate_conn_inv ck sk seeded o :
     ((v = v13 /\ exists f, server13 sk ss h = ROk f /\ client_tail13 ck sk h f = Ok o) \/
      (v <> v13 /\ exists f, server12 sk ss h seeded = ROk f /\ client_tail12 ck sk h f = Ok o)).
 Proof.
-  unfold negotiate_conn. cbv zeta.
+  unfold negotiate_conn_sw. cbv zeta.
   set (h := match stack_of ck with
             | Only12 => client_hello12 ck _
             | _ => client_hello13 ck end).
@@ -847,11 +851,26 @@ Proof.
   destruct (v =? v13) eqn:Ev.
   - left. apply N.eqb_eq in Ev. split; [exact Ev|].
     apply lift_ok in H. destruct H as [f [Hf H]]. exists f. split; [exact Hf|].
-    destruct (stack_of ck); [discriminate | exact H | exact H].
+    unfold client_tail13.
+    destruct (stack_of ck); [discriminate | |];
+      (destruct (of_opt (select_version [v13] (k_min ck) (k_max ck)) g11_alert_protocol_version); cbn [lift] in *;
+       [|discriminate ..]; cbv zeta;
+       destruct (negb (nonempty (filter_for_version v13 (k_suites ck)))); [discriminate|];
+       now apply lift_client13_ok in H).
   - right. apply N.eqb_neq in Ev. split; [exact Ev|].
     apply lift_ok in H. destruct H as [f [Hf H]]. exists f. split; [exact Hf|].
     destruct (stack_of ck); [exact H | discriminate | exact H].
 Qed.
+
+Lemma negotiate_conn_inv ck sk seeded o :
+  negotiate_conn ck sk seeded = Ok o ->
+  exists h v ss,
+    ((h = client_hello13 ck /\ stack_of ck <> Only12) \/ (exists b, h = client_hello12 ck b) /\ stack_of ck = Only12) /\
+    server_version sk h = ROk v /\
+    (forall s, In s ss -> In s (k_suites sk) /\ fits_key (c_key (k_cfg sk)) s = true) /\
+    ((v = v13 /\ exists f, server13 sk ss h = ROk f /\ client_tail13 ck sk h f = Ok o) \/
+     (v <> v13 /\ exists f, server12 sk ss h seeded = ROk f /\ client_tail12 ck sk h f = Ok o)).
+Proof. apply negotiate_conn_sw_inv. Qed.
 
 Lemma server_version_range sk h v :
   conn_wf sk -> server_version sk h = ROk v -> in_range (k_min sk) (k_max sk) v = true /\ (v = v12 \/ v = v13).
@@ -1135,7 +1154,7 @@ Qed.
 
 Theorem in_policy_holds c s seeded o : negotiate c s seeded = Some (Ok o) -> in_policy c s o.
 Proof.
-  unfold negotiate. destruct (build true c) as [ck|] eqn:Ec; [|discriminate].
+  unfold negotiate, negotiate_sw. destruct (build true c) as [ck|] eqn:Ec; [|discriminate].
   destruct (build false s) as [sk|] eqn:Es; [|discriminate].
   intro H. inversion H as [H1]; clear H.
   apply build_spec in Ec, Es.
@@ -1398,7 +1417,7 @@ Theorem negotiated_version_is_highest_cfg c s seeded o ck sk :
   forall w, (w = v12 \/ w = v13) ->
     in_range (k_min ck) (k_max ck) w = true -> in_range (k_min sk) (k_max sk) w = true -> w <= o_version o.
 Proof.
-  intros Bc Bs H. unfold negotiate in H. rewrite Bc, Bs in H. inversion H as [H1].
+  intros Bc Bs H. unfold negotiate, negotiate_sw in H. rewrite Bc, Bs in H. inversion H as [H1].
   apply build_spec in Bc, Bs.
   exact (negotiated_version_is_highest ck sk seeded o (bf_wf _ _ Bc) (bf_wf _ _ Bs) H1).
 Qed.
@@ -1500,11 +1519,11 @@ Proof. reflexivity. Qed.
 (* C11 on an association whose FIRST ClientHello was rewritten on path (supported_groups, ALPN offer,
    extended_master_secret, server_name): if it completes, it completes exactly as the untouched association *)
 Theorem first_hello_steering_harmless ck sk seeded t o :
-  t_sh_alpn t = 0 -> t_sh_suite t = 0 ->
+  t_sh_alpn t = 0 -> t_sh_suite t = 0 -> t_sh_sessionid t = false ->
   negotiate12_steered ck sk seeded true t = Ok o ->
   negotiate12_steered ck sk seeded true no_steering = Ok o.
 Proof.
-  intros Ht Hts. unfold negotiate12_steered. cbv zeta. rewrite Hts.
+  intros Ht Hts Hsid. unfold negotiate12_steered. cbv zeta. rewrite Hts, Hsid.
   destruct (nonempty (filter_for_version v12 (filter_for_key (c_key (k_cfg sk)) (k_suites sk)))); cbn [negb]; [|discriminate].
   set (h2 := client_hello12 ck (seeded && c_store (k_cfg ck) && true)).
   intro H. apply lift_ok in H. destruct H as [f0 [Hf H]].
@@ -1520,7 +1539,7 @@ Theorem negotiate12_unsteered ck sk seeded hv :
   stack_of ck = Only12 -> stack_of sk = Only12 ->
   negotiate12_steered ck sk seeded hv no_steering = negotiate_conn ck sk seeded.
 Proof.
-  intros Hc Hs. unfold negotiate12_steered, negotiate_conn. cbv zeta. rewrite Hc, Hs. cbn [lift].
+  intros Hc Hs. unfold negotiate12_steered, negotiate_conn, negotiate_conn_sw. cbv zeta. rewrite Hc, Hs. cbn [lift].
   change (v12 =? v13) with false. cbv iota.
   destruct (nonempty (filter_for_version v12 (filter_for_key (c_key (k_cfg sk)) (k_suites sk)))); cbn [negb]; [|reflexivity].
   set (h2 := client_hello12 ck (seeded && c_store (k_cfg ck) && true)).
@@ -1622,6 +1641,7 @@ Proof.
   intro H. apply lift_ok in H. destruct H as [f0 [Hf H]].
   apply lift_ok in H. destruct H as [u1 [_ H]].
   apply lift_ok in H. destruct H as [u2 [Hs H]]. apply req_ok in Hs.
+  apply lift_ok in H. destruct H as [u3 [_ H]].
   apply lift_ok in H. destruct H as [cv [_ H]].
   destruct (nonempty (filter_for_version v12 (k_suites ck))); cbn [negb] in H; [|discriminate].
   apply lift_ok in H. destruct H as [o1 [Ho1 H]].
@@ -1642,6 +1662,7 @@ Proof.
   intros H Hn. apply lift_ok in H. destruct H as [f0 [Hf H]].
   apply lift_ok in H. destruct H as [u1 [_ H]].
   apply lift_ok in H. destruct H as [u2 [_ H]].
+  apply lift_ok in H. destruct H as [u3 [_ H]].
   apply lift_ok in H. destruct H as [cv [_ H]].
   destruct (nonempty (filter_for_version v12 (k_suites ck))); cbn [negb] in H; [|discriminate].
   apply lift_ok in H. destruct H as [o1 [Ho1 H]].
@@ -1650,6 +1671,26 @@ Proof.
   assert (Ha : o_alpn o = t_sh_alpn t).
   { rewrite (cl_alpn _ _ _ _ _ _ _ Ho1). unfold steer_flight. apply N.eqb_neq in Hn. now rewrite Hn. }
   split; [exact Ha|]. apply (cl_alpn_own _ _ _ _ _ _ _ Ho1). now rewrite Ha.
+Qed.
+
+(* ... and a hook that puts another session id into the ServerHello of a RESUMED handshake is refused (6fdd853: the
+   echoed id is the signal of the resumption); a completed hooked association is a full handshake *)
+Theorem hook_cannot_rename_a_resumed_session ck sk seeded hv t o :
+  negotiate12_steered ck sk seeded hv t = Ok o -> t_sh_sessionid t = true -> o_resumed o = false.
+Proof.
+  unfold negotiate12_steered. cbv zeta.
+  destruct (nonempty (filter_for_version v12 (filter_for_key (c_key (k_cfg sk)) (k_suites sk)))); cbn [negb]; [|discriminate].
+  intros H Hn. apply lift_ok in H. destruct H as [f0 [Hf H]].
+  apply lift_ok in H. destruct H as [u1 [_ H]].
+  apply lift_ok in H. destruct H as [u2 [_ H]].
+  apply lift_ok in H. destruct H as [u3 [Hs H]]. apply req_ok in Hs. rewrite Hn in Hs. cbn in Hs.
+  apply lift_ok in H. destruct H as [cv [_ H]].
+  destruct (nonempty (filter_for_version v12 (k_suites ck))); cbn [negb] in H; [|discriminate].
+  apply lift_ok in H. destruct H as [o1 [Ho1 H]].
+  apply lift_ok in H. destruct H as [o2 [Ho2 H]]. inversion H; subst o2; clear H.
+  apply server_finish_ok in Ho2. subst o1. apply client12_spec in Ho1.
+  destruct (cl_flags _ _ _ _ _ _ _ Ho1) as [Q _]. rewrite Q.
+  unfold steer_flight. destruct (f_resumed f0) eqn:E; [discriminate|]. now destruct (t_sh_alpn t =? 0).
 Qed.
 
 (* ------------------------------------------------------------------ EMS policy on resumed handshakes *)
@@ -1682,4 +1723,78 @@ Proof.
   intros H Hr. pose proof (server12_spec _ _ _ _ _ H) as S.
   pose proof (s12_ems_required _ _ _ _ S Hr) as Hx. split; [|exact Hx].
   now destruct (s12_ems_ext _ _ _ _ S Hx).
+Qed.
+
+(* ------------------------------------------------------------------ the DTLS 1.3 client's alert and the connection IDs *)
+
+Lemma lift_client13_cases lost {A} (r : res A) (k : A -> result) :
+  lift_client13 lost r k = lift Client r k \/
+  (lost = true /\ lift_client13 lost r k = Silent Client /\ exists a, lift Client r k = Fail Client a).
+Proof.
+  destruct r as [x|a|]; cbn; [now left | | now left].
+  destruct lost; [right; repeat split; eauto | now left].
+Qed.
+
+Lemma alert13_lost_kept ck sk cs h f : alert13_lost true ck sk cs h f = false.
+Proof. reflexivity. Qed.
+
+(* the switch does one thing: some of the client's fatal alerts on the DTLS 1.3 server flight no longer reach the
+   server (the client fails, the server keeps waiting) *)
+Theorem connection_id_switch_only_silences_client_alerts keep ck sk seeded :
+  negotiate_conn_sw keep ck sk seeded = negotiate_conn_sw true ck sk seeded \/
+  (keep = false /\ negotiate_conn_sw keep ck sk seeded = Silent Client /\
+   exists a, negotiate_conn_sw true ck sk seeded = Fail Client a).
+Proof.
+  unfold negotiate_conn_sw. cbv zeta.
+  match goal with |- context [lift Server ?sv _] => destruct sv as [v| |] end; cbn [lift]; try (now left).
+  match goal with |- context [negb (nonempty ?l)] => destruct (negb (nonempty l)) end; [now left|].
+  destruct (v =? v13); [|now left].
+  match goal with |- context [server13 ?a ?b ?c] => destruct (server13 a b c) as [f| |] end; cbn [lift]; try (now left).
+  destruct (stack_of ck); [now left | |];
+    (match goal with |- context [of_opt ?o ?a] => destruct (of_opt o a) as [u| |] end; cbn [lift]; try (now left);
+     match goal with |- context [negb (nonempty ?l)] => destruct (negb (nonempty l)) end; [now left|];
+     match goal with |- context [lift_client13 ?l ?r ?k] =>
+       destruct (lift_client13_cases l r k) as [E|[El [Es [a Ea]]]] end;
+     [ left; rewrite E; change (alert13_lost true ck sk _ _ f) with false;
+       match goal with |- context [lift_client13 false ?r ?k] => destruct r; reflexivity end
+     | right; split;
+       [ unfold alert13_lost in El; destruct keep; [discriminate | reflexivity]
+       | split; [exact Es|]; exists a; change (alert13_lost true ck sk _ _ f) with false;
+         match goal with |- lift_client13 false ?r ?k = _ => destruct r; exact Ea end ] ]).
+Qed.
+
+(* with the connection IDs kept, a client that refuses the DTLS 1.3 server flight is never the silent side because
+   of them: a silent client failure of the kept composition is one of the code as it is too *)
+Corollary kept_connection_ids_alert_reaches_the_server ck sk seeded a :
+  negotiate_conn_sw true ck sk seeded = Fail Client a ->
+  negotiate_conn_sw false ck sk seeded = Fail Client a \/ negotiate_conn_sw false ck sk seeded = Silent Client.
+Proof.
+  intro H. destruct (connection_id_switch_only_silences_client_alerts false ck sk seeded) as [E|[_ [E _]]];
+    [left; now rewrite E | now right].
+Qed.
+
+(* as coded: a DTLS 1.3 client that offered the connection_id extension and refuses the certificate of a server that
+   negotiated a 4-byte connection ID fails with bad_certificate, and the server never learns of it *)
+Definition w_cid13_c : cfg :=
+  mkCfg 3 3 None false false 0 1027 0 false [] [] [] 0 [] [] [] (Some []) false false 0 true.
+Definition w_cid13_s : cfg :=
+  mkCfg 0 3 None false false 2 1027 0 false [] [] [] 0 [] [] [] (Some [1; 2; 3; 4]) false false 0 false.
+
+Theorem client13_alert_sealed_without_connection_id_refuted :
+  exists c s, negotiate_sw false c s false = Some (Silent Client) /\
+              negotiate_sw true c s false = Some (Fail Client g11_alert_bad_certificate) /\
+              c_cid c <> None /\ c_cid s = Some [1; 2; 3; 4].
+Proof.
+  exists w_cid13_c, w_cid13_s. repeat split; try (vm_compute; reflexivity). discriminate.
+Qed.
+
+(* the statement that holds of the code as modelled, whichever way the switch is set *)
+Theorem client13_alert_as_coded :
+  if client13_abort_keeps_connection_ids
+  then forall c s seeded, negotiate c s seeded = negotiate_sw true c s seeded
+  else exists c s, negotiate c s false = Some (Silent Client) /\
+                   negotiate_sw true c s false = Some (Fail Client g11_alert_bad_certificate).
+Proof.
+  cbv iota beta delta [client13_abort_keeps_connection_ids].
+  destruct client13_alert_sealed_without_connection_id_refuted as [c [s [H1 [H2 _]]]]. exists c, s. split; assumption.
 Qed.
